@@ -25,6 +25,26 @@ COMMON_ASSUME = [
 
 PROPS = {}
 
+QN5 = [0, 1, 2, 3, 4]
+TN5 = [0, 1, 2, 3, 4, 5]
+FA_Q = [(0, 1), (0, 2), (1, 0), (1, 1), (1, 3), (2, 1), (2, 3), (2, 5), (3, 2), (3, 4), (3, 7), (4, 6)]
+FA_T = [(n, m) for n in range(0, 5) for m in range(0, 2 * n + 2)] + [(5, 3), (5, 7), (5, 11)]
+
+E2_BOUNDS = dict(engine='rustc nightly -Zunpretty=mir -> mir2c -> CBMC 6.11 (SAT)', element='tok_t (1-byte id) with ledger; generic parameters T, U',
+                 pre_state='every (start, size) of the invariant; unoccupied slots nondeterministic',
+                 fault='exactly one injected panic: symbolic kind and symbolic event index, or none',
+                 arguments='unconstrained; slices/iterators up to 2N+1 elements', unwinding='--unwind max(3N+8, 18) --unwinding-assertions')
+
+
+def e2_jobs(scens_quick, scens_thorough=None):
+    return dict(quick=scens_quick, thorough=scens_thorough or scens_quick)
+
+
+C05_SCENS = ['TRUNCATE_BACK', 'TRUNCATE_FRONT', 'CLEAR', 'BUFFER_DROP', 'FILL', 'FILL_WITH', 'EXTEND_FROM_SLICE', 'EXTEND_ITER',
+             'FROM_ITER', 'CLONE_FROM', 'DRAIN_DROP']
+C06_SCENS = ['FILL', 'FILL_SPARE', 'FILL_WITH', 'FILL_SPARE_WITH', 'EXTEND_FROM_SLICE', 'EXTEND_ITER', 'FROM_ITER', 'CLONE', 'CLONE_FROM']
+C11_SCENS = ['OVER_RANGE_DRAIN', 'OVER_RANGE_ITER', 'OVER_RANGE_ITERMUT', 'SWAP', 'INDEX', 'INDEX_MUT']
+
 
 def prop(pid, title, **kw):
     d = dict(title=title, e1_configs=['default'], e2=[], bounds=E1_BOUNDS, stubs=[], assumptions=list(COMMON_ASSUME),
@@ -37,8 +57,13 @@ prop('C01', 'every mutator implements bounded-deque semantics', stubs=[ROT_STUB]
 prop('C02', 'single-element insertion never loses an element')
 prop('C03', 'every element dropped exactly once, never while reachable', stubs=[ROT_STUB], code_failures_count=False)
 prop('C04', 'unoccupied storage is never observed', code_failures_count=False)
-prop('C05', 'panicking destructor: no second drop, buffer stays valid', e1_configs=[])
-prop('C06', 'panic in user code leaves a valid buffer, nothing leaked', e1_configs=[])
+prop('C05', 'panicking destructor: no second drop, buffer stays valid', e1_configs=[], bounds=E2_BOUNDS,
+     e2=[dict(tag='std', features=['std', 'alloc'],
+              jobs=e2_jobs([(s, 1, QN5) for s in C05_SCENS] + [('FROM_ARRAY', 1, FA_Q)],
+                           [(s, 1, TN5) for s in C05_SCENS] + [('FROM_ARRAY', 1, FA_T)]))])
+prop('C06', 'panic in user code leaves a valid buffer, nothing leaked', e1_configs=[], bounds=E2_BOUNDS,
+     e2=[dict(tag='std', features=['std', 'alloc'],
+              jobs=e2_jobs([(s, 2, QN5) for s in C06_SCENS], [(s, 2, TN5) for s in C06_SCENS]))])
 prop('C07', 'all views agree; mutable views alias exactly those elements', stubs=[ROT_STUB], code_failures_count=False)
 prop('C08', 'iterators obey the double-ended exact-size protocol', code_failures_count=False)
 prop('C09', 'drain removes exactly the range, keeps the rest in order')
